@@ -2,6 +2,28 @@
 over the shards; budgets are case counts, never time."""
 
 PROPS = {
+    "C14": {
+        "pkg": "c14", "needs_gw": False, "level": "exploration",
+        "technique": "property-based testing (rapid) + native fuzzing: glob differential against a reference matcher, generated policy documents x queries against an own evaluator (with metamorphic permutation / re-shaping), mutation-built invalid documents must be refused deterministically, end-to-end PutBucketPolicy",
+        "level_text": ("Generated-input search with model oracles: (G) Resources.Match vs a recursive reference glob on strings built to force "
+                       "back-tracking; (E) VerifyBucketPolicy on grammar-generated documents (1-5 statements, both effects, every principal / action "
+                       "/ resource JSON shape, exact / s3:* / trailing-* actions, resource globs) vs 'some Allow matches and no Deny matches', plus "
+                       "invariance under statement permutation and string<->array re-shaping; (D) documents made invalid for one known reason "
+                       "(15 reasons from the statement) must be refused, identically on 26 repetitions, while the valid control is accepted; "
+                       "(B) through the gateway: refused PUT leaves the previous policy byte-exact, model decisions confirmed with real GetObject."),
+        "level_note": "oracle = model/policy.go written from the statement; '?' is judged only where the byte and the character reading agree. Exploration only.",
+        "rule": ("G: (pattern, subject) over {a,b,/,*,?} and a wider alphabet, subjects derived from the pattern then perturbed; non-trivial: >= 2 wildcards. "
+                 "E: non-trivial: >= 2 statements of both effects and the query matches at least one statement. D/B: non-trivial: the document "
+                 "carries an invalidating mutation. Distinct by full case."),
+        "assumptions": ["IAM lookups are served by a stub holding the accounts alice, bob, carol (layer A) / the internal IAM store (layer B)"],
+        "jobs": [
+            {"run": "TestC14Glob", "quick": 400000, "thorough": 16000000, "shards_quick": 4, "shards_thorough": 16},
+            {"run": "TestC14Eval", "quick": 120000, "thorough": 4000000, "shards_quick": 4, "shards_thorough": 16},
+            {"run": "TestC14Doc", "quick": 60000, "thorough": 2000000, "shards_quick": 4, "shards_thorough": 16},
+            {"run": "TestC14B", "quick": 8000, "thorough": 200000, "shards_quick": 4, "shards_thorough": 16},
+        ],
+        "fuzz": [{"target": "FuzzC14Glob", "seconds": 300}],
+    },
     "C07": {
         "pkg": "c07", "needs_gw": False, "level": "exploration",
         "technique": "property-based testing (rapid) + native fuzzing: generated key trees x prefix x delimiter x max-keys x marker against a reference S3 listing model, on backend.Walk and end to end (ListObjects V1/V2 paging)",
